@@ -272,9 +272,31 @@ func c17Allowed(w uint32) bool {
 	return m == 0xd5087000 || m == 0xd5088000
 }
 
+// c17Deposit scatters the low bits of k into the positions of the set bits of free (software PDEP)
+func c17Deposit(k uint64, free uint32) uint32 {
+	var w uint32
+	for b := uint(0); b < 32; b++ {
+		if free&(1<<b) != 0 {
+			if k&1 != 0 {
+				w |= 1 << b
+			}
+			k >>= 1
+		}
+	}
+	return w
+}
+
 func c17SweepRange(lo, hi, stride uint64, strcmp bool, s *c17Stats) {
+	c17SweepGen(lo, hi, stride, 0, 0, false, strcmp, s)
+}
+
+// c17SweepGen: plain mode enumerates lo, lo+stride, … < hi; row mode enumerates value | deposit(k, ^mask) for k in [lo, hi)
+func c17SweepGen(lo, hi, stride uint64, mask, value uint32, rowMode bool, strcmp bool, s *c17Stats) {
 	for w64 := lo; w64 < hi; w64 += stride {
 		w := uint32(w64)
+		if rowMode {
+			w = value | c17Deposit(w64, ^mask)
+		}
 		s.Words++
 		gi, gerr, gstr, gpan := c17Dec(w)
 		ri, rerr, rstr, rpan := c17Ref(w, strcmp)
@@ -344,8 +366,34 @@ func c17SweepRange(lo, hi, stride uint64, strcmp bool, s *c17Stats) {
 func TestVerifC17Sweep(t *testing.T) {
 	segs := strings.Split(os.Getenv("VERIF_C17_SEGS"), ",")
 	strcmp := os.Getenv("VERIF_C17_STRCMP") == "1"
-	type job struct{ lo, hi, stride uint64 }
+	type job struct {
+		lo, hi, stride uint64
+		mask, value    uint32
+		row            bool
+	}
 	var jobs []job
+	// $VERIF_C17_ROWS = "mask:value,...": every word of each listed table row (all combinations of its free bits)
+	for _, rw := range strings.Split(os.Getenv("VERIF_C17_ROWS"), ",") {
+		p := strings.Split(strings.TrimSpace(rw), ":")
+		if len(p) != 2 {
+			continue
+		}
+		m, v := uint32(vh.U64(p[0])), uint32(vh.U64(p[1]))
+		free := 0
+		for b := uint(0); b < 32; b++ {
+			if m&(1<<b) == 0 {
+				free++
+			}
+		}
+		n := uint64(1) << uint(free)
+		for a := uint64(0); a < n; a += 1 << 18 {
+			b := a + 1<<18
+			if b > n {
+				b = n
+			}
+			jobs = append(jobs, job{a, b, 1, m, v, true})
+		}
+	}
 	for _, sg := range segs {
 		p := strings.Split(strings.TrimSpace(sg), ":")
 		if len(p) != 3 {
@@ -362,7 +410,7 @@ func TestVerifC17Sweep(t *testing.T) {
 			if b > hi {
 				b = hi
 			}
-			jobs = append(jobs, job{a, b, st})
+			jobs = append(jobs, job{lo: a, hi: b, stride: st})
 		}
 	}
 	budget, _ := strconv.Atoi(os.Getenv("VERIF_C17_BUDGET_S"))
@@ -391,7 +439,7 @@ func TestVerifC17Sweep(t *testing.T) {
 				if time.Now().After(deadline) {
 					continue // out of budget: the job is skipped and the sweep reported incomplete
 				}
-				c17SweepRange(j.lo, j.hi, j.stride, strcmp, s)
+				c17SweepGen(j.lo, j.hi, j.stride, j.mask, j.value, j.row, strcmp, s)
 				atomic.AddInt64(&done, 1)
 			}
 		}(res[k])
